@@ -112,7 +112,7 @@ CLAIMED = {
              ref="5 C17"),
  "C18": dict(cat="fault_enumeration", tech="fault space enumerated by TLC from Faults.tla over generated assets and archive files + isolated-worker execution + TLC validation of the outcome contract incl. residual heap; inflate lifecycle model-checked",
              text="Same construction as C17 over the game assets and the archive: field maps of generated valid bases (model, four texture formats, EXH, EXD with "
-                  "read_row on every id, index, dat entries of each kind, materials, shader package, skeleton containers, deformer, terrain, layer group; all drawn from a fixed stream so that the run does not depend on VERIF_SEED), arbitrary and magic-prefixed blobs for every asset entry point, and installation fault "
+                  "read_row on every id, index, dat entries of each kind, materials, shader package, skeleton containers, deformer, terrain, layer group, staining template, effect file, word dictionary (a valid trie whose walk is specified in Dictionary.tla); all drawn from a fixed stream so that the run does not depend on VERIF_SEED), arbitrary and magic-prefixed blobs for every asset entry point, and installation fault "
                   "sequences (missing / truncated index and dat at structure boundaries, stray directories). The block reader's inflate lifecycle (no live stream on "
                   "return, also on failure) is model-checked; the real residual heap after a failed read is observed through malloc's accounting.",
              note="Trusts TLC, the supervisor/worker, mallinfo2 for residual heap (4 KiB slack). Formats without a generator yet are exercised with blobs only. Known findings listed per entry point.",
